@@ -440,20 +440,36 @@ func (m *model) evalSlot(n Node, cx mctx) ([]*hx.N, error) {
 		m.st.add("scoped:named-var")
 	case len(sup.destr) > 0:
 		for _, d := range sup.destr {
-			v, ok := props[d]
-			if !ok && optional[d] {
-				continue
+			// a listed name this use of the slot binds nothing (or nil) for - or that the slot never
+			// binds - is still declared by the pattern: it is undefined, it does not fall through to
+			// an includer variable of the same name
+			vars[d] = props[d]
+			if _, ok := props[d]; !ok {
+				m.st.add("destructured-name-without-a-prop")
 			}
-			if !ok {
-				return nil, fmt.Errorf("destructured name %q is not bound by the slot", d)
-			}
-			vars[d] = v
 		}
 		m.st.add("scoped:destructured")
 		m.st.add(fmt.Sprintf("pattern-layout=%d", sup.ws%patternStyles))
 	}
 	if len(vars) > 0 && usesAny(sup.kids, vars) {
 		m.st.add("scoped-prop-read")
+	}
+	// names the component binds at this position (props, front-matter, loop variables, slot props
+	// that were not asked for under that name) and that the content reads as the INCLUDER's names
+	compNames := map[string]any{}
+	for e := cx.env; e != nil; e = e.up {
+		for k := range e.vars {
+			compNames[k] = true
+		}
+	}
+	for k := range props {
+		compNames[k] = true
+	}
+	for k := range vars {
+		delete(compNames, k)
+	}
+	if usesAny(sup.kids, compNames) {
+		m.st.add("collision:content-reads-a-name-the-component-binds")
 	}
 	cx2 := mctx{
 		env:      &menv{vars: vars, up: sup.env},
